@@ -16,6 +16,7 @@
  *     counter += v atomically, return the new value, the detector fires iff the new value is 0.
  */
 #include "verif.h"
+#define VERIF_RG_POST_STEP   /* environment also acts after each of my atomic operations */
 #include "verif_rg.h"
 #include "parsec/parsec_internal.h"
 #include "parsec/mca/termdet/termdet.h"
